@@ -29,31 +29,32 @@ theorem lcp_opened_mutual (c : Cfg) (evs : List Ev) :
       (run FsmLcp.tables c (init c) evs).our = true ∧ (run FsmLcp.tables c (init c) evs).peer = true :=
   opened_mutual_of lcp_inv c evs
 
-/-- From Opened, every renegotiation (a parseable Configure-Request; a Configure-Ack/Nak/Reject carrying the
-    identifier of our last request), Terminate-Request, Terminate-Ack, lower-layer Down, Close, a Code-Reject of a
+/-- From Opened, every renegotiation (a Configure-Request; a Configure-Ack/Nak/Reject carrying the identifier of
+    our last request — in each case unless the option bytes are unparseable AND the Go handler returns on a parse
+    error, which `Leaving` reads off the generated table), Terminate-Request, Terminate-Ack, lower-layer Down, Close, a Code-Reject of a
     Configure code and a Protocol-Reject of LCP itself leaves Opened — in every state `s`, reachable or not. -/
 theorem lcp_leaves_opened (c : Cfg) (s : State) (e : Ev) (hs : s.st = .Opened) (he : Leaving FsmLcp.tables s e) :
     (step FsmLcp.tables c s e).1.st ≠ .Opened :=
-  leaves_opened_of lcp_dispatch lcp_leave c s e hs he
+  leaves_opened lcp_dispatch lcp_leave c s e hs he
 
 /-- Every reply (Configure-Ack/Nak/Reject, Terminate-Ack, Echo-Reply) sent while handling a packet carries that
     packet's identifier. -/
 theorem lcp_reply_echoes_id (c : Cfg) (s : State) (e : Ev) (p : Pkt)
     (hp : p ∈ (step FsmLcp.tables c s e).2.out) (hr : isReplyCode p.code = true) : p.id = (evCtx e).id :=
-  reply_echoes_id_of _ c s e p hp hr
+  reply_echoes_id _ c s e p hp hr
 
 /-- A Configure-Ack repeats the option list of the request it answers, unchanged and in order. -/
 theorem lcp_ack_repeats_options (c : Cfg) (s : State) (e : Ev) (p : Pkt)
     (hp : p ∈ (step FsmLcp.tables c s e).2.out) (hk : p.code = cCA) : p.opts = (evCtx e).opts :=
-  ack_repeats_options_of _ c s e p hp hk
+  ack_repeats_options _ c s e p hp hk
 
 /-- A Configure-Reject lists, in order, only options of the request, each of them unsupported; every option of a
     Configure-Nak replaces an option of the request that is negotiable but unacceptable, with the same type. -/
 theorem lcp_nak_rej_only_offending (c : Cfg) (s : State) (e : Ev) (p : Pkt)
     (hp : p ∈ (step FsmLcp.tables c s e).2.out) :
-    (p.code = cCJ → p.opts.Sublist (evCtx e).opts ∧ ∀ o ∈ p.opts, unsupported c o) ∧
-    (p.code = cCN → ∀ n ∈ p.opts, ∃ o ∈ (evCtx e).opts, nakable c o ∧ n.ty = o.ty) :=
-  nak_rej_only_offending_of _ c s e p hp
+    (p.code = cCJ → p.opts.Sublist (evCtx e).opts ∧ ∀ o ∈ p.opts, unsupported (effCfg c s) o) ∧
+    (p.code = cCN → ∀ n ∈ p.opts, ∃ o ∈ (evCtx e).opts, nakable (effCfg c s) o ∧ n.ty = o.ty) :=
+  nak_rej_only_offending _ c s e p hp
 
 /-- Against a silent peer (nothing but expiries of the armed restart timer) the automaton stops: from any
     reachable state, after at most `MaxConfigure + 1` expiries no timer is armed any more — so at most
@@ -74,31 +75,33 @@ theorem ipcp_opened_mutual (c : Cfg) (evs : List Ev) :
 /-- as `lcp_leaves_opened`, for the IPCP automaton (Code-Reject and Protocol-Reject are not IPCP events) -/
 theorem ipcp_leaves_opened (c : Cfg) (s : State) (e : Ev) (hs : s.st = .Opened) (he : Leaving FsmIpcp.tables s e) :
     (step FsmIpcp.tables c s e).1.st ≠ .Opened :=
-  leaves_opened_of ipcp_dispatch ipcp_leave c s e hs he
+  leaves_opened ipcp_dispatch ipcp_leave c s e hs he
 
 /-- as `lcp_reply_echoes_id` -/
 theorem ipcp_reply_echoes_id (c : Cfg) (s : State) (e : Ev) (p : Pkt)
     (hp : p ∈ (step FsmIpcp.tables c s e).2.out) (hr : isReplyCode p.code = true) : p.id = (evCtx e).id :=
-  reply_echoes_id_of _ c s e p hp hr
+  reply_echoes_id _ c s e p hp hr
 
 /-- as `lcp_ack_repeats_options` -/
 theorem ipcp_ack_repeats_options (c : Cfg) (s : State) (e : Ev) (p : Pkt)
     (hp : p ∈ (step FsmIpcp.tables c s e).2.out) (hk : p.code = cCA) : p.opts = (evCtx e).opts :=
-  ack_repeats_options_of _ c s e p hp hk
+  ack_repeats_options _ c s e p hp hk
 
 /-- as `lcp_nak_rej_only_offending` -/
 theorem ipcp_nak_rej_only_offending (c : Cfg) (s : State) (e : Ev) (p : Pkt)
     (hp : p ∈ (step FsmIpcp.tables c s e).2.out) :
-    (p.code = cCJ → p.opts.Sublist (evCtx e).opts ∧ ∀ o ∈ p.opts, unsupported c o) ∧
-    (p.code = cCN → ∀ n ∈ p.opts, ∃ o ∈ (evCtx e).opts, nakable c o ∧ n.ty = o.ty) :=
-  nak_rej_only_offending_of _ c s e p hp
+    (p.code = cCJ → p.opts.Sublist (evCtx e).opts ∧ ∀ o ∈ p.opts, unsupported (effCfg c s) o) ∧
+    (p.code = cCN → ∀ n ∈ p.opts, ∃ o ∈ (evCtx e).opts, nakable (effCfg c s) o ∧ n.ty = o.ty) :=
+  nak_rej_only_offending _ c s e p hp
 
-/-- IPCP acknowledges an IP-Address option only if it carries the address assigned to the session; with no
-    address assigned it acknowledges none. -/
-theorem ipcp_acks_only_assigned (c : Cfg) (hc : c.proto = .ipcp) (s : State) (e : Ev) (p : Pkt)
-    (hp : p ∈ (step FsmIpcp.tables c s e).2.out) (hk : p.code = cCA) :
-    ∀ o ∈ p.opts, o.ty = 3 → c.peerIP = some o.data :=
-  ipcp_acks_only_assigned_of _ c hc s e p hp hk
+/-- After ANY history (Up/Down cycles with pool allocation and release, SetPeerIP, changing pool answers, packets,
+    timers) IPCP acknowledges an IP-Address option only if it carries the address assigned to the session at that
+    moment: the configured one, the one set by SetPeerIP, or the one the pool handed out and that has not been
+    released since (`State.assigned`, ghost).  With nothing assigned it acknowledges none. -/
+theorem ipcp_acks_only_assigned (c : Cfg) (hc : c.proto = .ipcp) (evs : List Ev) (e : Ev) (p : Pkt)
+    (hp : p ∈ (step FsmIpcp.tables c (run FsmIpcp.tables c (init c) evs) e).2.out) (hk : p.code = cCA) :
+    ∀ o ∈ p.opts, o.ty = 3 → (run FsmIpcp.tables c (init c) evs).assigned = some o.data :=
+  Bng.Ncp.ipcp_acks_only_assigned _ c hc evs e p hp hk
 
 /-- as `lcp_silent_peer_stops`, with `MaxRetransmit` (0 meaning 10) -/
 theorem ipcp_silent_peer_stops (c : Cfg) (evs : List Ev) :
@@ -117,24 +120,24 @@ theorem ipv6cp_opened_mutual (c : Cfg) (evs : List Ev) :
 /-- as `ipcp_leaves_opened` -/
 theorem ipv6cp_leaves_opened (c : Cfg) (s : State) (e : Ev) (hs : s.st = .Opened) (he : Leaving FsmIpv6cp.tables s e) :
     (step FsmIpv6cp.tables c s e).1.st ≠ .Opened :=
-  leaves_opened_of ipv6cp_dispatch ipv6cp_leave c s e hs he
+  leaves_opened ipv6cp_dispatch ipv6cp_leave c s e hs he
 
 /-- as `lcp_reply_echoes_id` -/
 theorem ipv6cp_reply_echoes_id (c : Cfg) (s : State) (e : Ev) (p : Pkt)
     (hp : p ∈ (step FsmIpv6cp.tables c s e).2.out) (hr : isReplyCode p.code = true) : p.id = (evCtx e).id :=
-  reply_echoes_id_of _ c s e p hp hr
+  reply_echoes_id _ c s e p hp hr
 
 /-- as `lcp_ack_repeats_options` -/
 theorem ipv6cp_ack_repeats_options (c : Cfg) (s : State) (e : Ev) (p : Pkt)
     (hp : p ∈ (step FsmIpv6cp.tables c s e).2.out) (hk : p.code = cCA) : p.opts = (evCtx e).opts :=
-  ack_repeats_options_of _ c s e p hp hk
+  ack_repeats_options _ c s e p hp hk
 
 /-- as `lcp_nak_rej_only_offending` -/
 theorem ipv6cp_nak_rej_only_offending (c : Cfg) (s : State) (e : Ev) (p : Pkt)
     (hp : p ∈ (step FsmIpv6cp.tables c s e).2.out) :
-    (p.code = cCJ → p.opts.Sublist (evCtx e).opts ∧ ∀ o ∈ p.opts, unsupported c o) ∧
-    (p.code = cCN → ∀ n ∈ p.opts, ∃ o ∈ (evCtx e).opts, nakable c o ∧ n.ty = o.ty) :=
-  nak_rej_only_offending_of _ c s e p hp
+    (p.code = cCJ → p.opts.Sublist (evCtx e).opts ∧ ∀ o ∈ p.opts, unsupported (effCfg c s) o) ∧
+    (p.code = cCN → ∀ n ∈ p.opts, ∃ o ∈ (evCtx e).opts, nakable (effCfg c s) o ∧ n.ty = o.ty) :=
+  nak_rej_only_offending _ c s e p hp
 
 /-- as `ipcp_silent_peer_stops` -/
 theorem ipv6cp_silent_peer_stops (c : Cfg) (evs : List Ev) :
@@ -164,8 +167,26 @@ example : (run FsmLcp.tables cfgL (init cfgL) [.up, .open, .rca 1, .stale, .rcr 
 /-- an acceptable request is acknowledged with its own options; an address that is not the assigned one is not -/
 example : (step FsmIpcp.tables cfgI (init cfgI) (.rcr 9 [⟨3, [10, 0, 0, 100], .conc⟩] false)).2.out =
     [{ code := cCA, id := 9, opts := [⟨3, [10, 0, 0, 100], .conc⟩] }] := by decide +kernel
-example : (step FsmIpcp.tables { cfgI with peerIP := none } (init cfgI) (.rcr 9 [⟨3, [10, 0, 0, 100], .conc⟩] false)).2.out =
+example : (step FsmIpcp.tables { cfgI with peerIP := none } (init { cfgI with peerIP := none })
+      (.rcr 9 [⟨3, [10, 0, 0, 100], .conc⟩] false)).2.out =
     [{ code := cCJ, id := 9, opts := [⟨3, [10, 0, 0, 100], .conc⟩] }] := by decide +kernel
+
+def cfgP : Cfg := { proto := .ipcp, maxConf := 2, localIP := some [10, 0, 0, 1], pool := true }
+
+/-- with a pool: the allocated address is acknowledged while it is held; after Down released it the same request is
+    answered with the newly allocated address (the sequence that made IPCP acknowledge a released address before
+    the repair of Down()) -/
+example : (step FsmIpcp.tables cfgP (run FsmIpcp.tables cfgP (init cfgP) [.poolNext (some [10, 77, 0, 2]), .open, .up])
+      (.rcr 1 [⟨3, [10, 77, 0, 2], .conc⟩] false)).2.out = [{ code := cCA, id := 1, opts := [⟨3, [10, 77, 0, 2], .conc⟩] }] := by
+  decide +kernel
+example : (step FsmIpcp.tables cfgP
+      (run FsmIpcp.tables cfgP (init cfgP) [.poolNext (some [10, 77, 0, 2]), .open, .up, .down, .poolNext (some [10, 77, 0, 3]), .up])
+      (.rcr 1 [⟨3, [10, 77, 0, 2], .conc⟩] false)).2.out = [{ code := cCN, id := 1, opts := [⟨3, [10, 77, 0, 3], .conc⟩] }] := by
+  decide +kernel
+
+/-- a matching Configure-Nak with unparseable options leaves Opened in IPv6CP (lax parsing), which `Leaving` admits -/
+example : Leaving FsmIpv6cp.tables (run FsmIpv6cp.tables cfg6 (init cfg6) [.up, .open, .rcr 0 [] false, .rca 1]) (.rcn 1 [] true) :=
+  ⟨by decide +kernel, Or.inr (by decide +kernel)⟩
 
 /-- against a silent peer LCP with MaxConfigure = 2 sends the request twice and stops at the second expiry -/
 example : (timeouts FsmLcp.tables cfgL (run FsmLcp.tables cfgL (init cfgL) [.open, .up]) 1).armed = true ∧
